@@ -78,7 +78,9 @@ def gen(rng, tier):
                 out.append(Case(op, ty, "bi", "alias" if same else "-", [], x + y + g, tag=tag, meta=dict(m, side="bi")))
                 cx, cy = conv(x), conv(y)
                 # the conversion 1 - a must be exact for the multinomial side to see the same operand
-                out.append(Case("fuse", ty, "arr", "self" if same else "own", [2, opk, 1 if same else 0], cx + cy, tag=tag,
+                # the multinomial operator through every call form (by value, by reference, in place)
+                st = "self" if same else rng.choice(["own", "ref", "assign", "assign_ref"])
+                out.append(Case("fuse", ty, rng.choice(["arr", "marr", "marrd"]), st, [2, opk, 1 if same else 0], cx + cy, tag=tag,
                                 meta=dict(m, side="mul")))
             if gid % 5 == 0:
                 out.append(Case("b2m", ty, "bi", "-", [], x, tag=tag))
